@@ -33,7 +33,7 @@ CLAIMS = {
         "error, close) over offsets and lengths only; TLC checks Framing (delivered PDUs = complete PDUs in the consumed prefix, hence chunking-independent), "
         "InsideBuffer, InOrder, whole-requests-per-connection and ClosedMeansClosed for every split/partial-send/fault position with small constants; the real TCP "
         "async client runs on scripted sockets with the real 65539-byte constants and every recorded system call is validated by TLC against the same actions.",
-   note="Bounds: MC MAX=3 (quick) / MAX=4 (thorough), <=3 PDUs, 2 requests, 2 connections; traces: 60/600 scenarios with PDUs 2..65539 bytes. Blocking TCP client not covered here. Two defects found and fixed (F-C14-1, F-C14-2).",
+   note="The blocking client is also driven with partial sends (first send accepts k bytes for every k; 1- and 7-byte sends). Bounds: MC MAX=3 (quick) / MAX=4 (thorough), <=3 PDUs, 2 requests, 2 connections; traces: 60/600 scenarios with PDUs 2..65539 bytes. Blocking TCP client not covered here. Two defects found and fixed (F-C14-1, F-C14-2).",
    technique="TLC model checking + TLC trace validation of every wrapped system call of the real TCP async client"),
  "C16": dict(level="model_checking", design_ref="DESIGN.md 4/C16",
    text="TreeBuilder.tla models the binary-counter forest of KSI_TreeBuilder (carry on add, pre-check and refusal, close, chain extraction) with nodes "
@@ -69,7 +69,7 @@ CLAIMS = {
         "record, every applicable single violation with position, pairs, 36 metadata-padding forms, document/level contexts). Each case is concretised "
         "constructively on top of the independent reference aggregator (downstream values recomputed so no other condition breaks) several times with random "
         "link mixes and verified by libksi; the real verdict must lie in the spec's Allowed set.",
-   note="Not generated: RFC3161 records (INT-14, INT-17, legacy INT-01) and INT-16 (no supported algorithm is obsolete); byte-level mutations are C09/C10/C12's. Non-shortest TLV forms inside hashed metadata are outside the compared domain (only 'never OK' is demanded). Trusted: TLC, hashlib, tools/ksi.py, tools/sigcase.py.",
+   note="Also the shape of no leaf (calShapeNone: surplus links at either end of the calendar chain). Not generated: RFC3161 records (INT-14, INT-17, legacy INT-01) and INT-16 (no supported algorithm is obsolete); byte-level mutations are C09/C10/C12's. Non-shortest TLV forms inside hashed metadata are outside the compared domain (only 'never OK' is demanded). Trusted: TLC, hashlib, tools/ksi.py, tools/sigcase.py.",
    technique="TLC-checked equivalence of declarative conditions and the rule tree + replay of all TLC cases (constructively concretised) into libksi"),
  "C02": dict(level="model_checking", design_ref="DESIGN.md 4/C02",
    text="The document conditions of Signature.tla (GEN-01 other digest, GEN-04 other algorithm, GEN-03 level above the first correction, level > 255 refused) are "
@@ -78,7 +78,7 @@ CLAIMS = {
         "replayed under the key-based, calendar-based, publications-file, user-publication and general policies on signatures whose trust anchor matches (C04's "
         "environment: real PKI, publications file, scripted extender), where the only admissible outcomes are OK for the right hash and level, GEN-01 / GEN-04 / "
         "GEN-03, or a refusal for levels above 255.",
-   note="AnchorPolicy.tla shows the internal rules dominate every path to OK of the five anchor policies (BrokenNeverOk). RFC3161 (legacy) signatures are not generated.",
+   note="Every context is replayed through four entry points (KSI_SignatureVerifier_verify, KSI_Signature_verifyWithPolicy with arguments / with a caller's context, KSI_Signature_parseWithPolicy). AnchorPolicy.tla shows the internal rules dominate every path to OK of the five anchor policies (BrokenNeverOk). RFC3161 (legacy) signatures are not generated.",
    technique="TLC-checked rule-tree model + exhaustive context table and bit-flip enumeration replayed into libksi"),
  "C10": dict(level="model_checking", design_ref="DESIGN.md 4/C10",
    text="Schema.tla restates the KSI schema of signatures and aggregation / extension response PDUs (v2) as data with a declarative Accept (mandatory, "
@@ -104,7 +104,7 @@ CLAIMS = {
         "letter-case spellings + unknown schemes; canonical spellings x credentials x host forms x ports x path x query x fragment x explicit credentials x "
         "blocking/async = 1.4e4 cases) and exports URI + Dispatch. Each URI is given to KSI_CTX_setAggregator/setExtender and KSI_AsyncService_setEndpoint; what "
         "the transports' configuration entry points receive (interposed at link time) must equal Dispatch and must not contain the embedded credentials.",
-   note="quick: every spelling + a seeded sample of 4000 product cases (x aggregator/extender); thorough: the full table. Known finding F-C20-1 (fragment without path); defects F-C20-2, F-C20-3 fixed. The login id / key actually used on the wire are C06/C07's.",
+   note="Unknown schemes include every proper prefix and one-letter extension of the known ones. quick: every spelling + a seeded sample of 4000 product cases (x aggregator/extender); thorough: the full table. Known finding F-C20-1 (fragment without path); defects F-C20-2, F-C20-3 fixed. The login id / key actually used on the wire are C06/C07's.",
    technique="TLC-checked composition/dispatch table replayed into the blocking and asynchronous services with link-time interposed transport setters"),
  "C07": dict(level="model_checking", design_ref="DESIGN.md 4/C07",
    text="SignExtend.tla models signing as a request/reply protocol whose reply is an attribute vector (payload kind, MAC, header, PDU version, status, request id, "
@@ -113,7 +113,7 @@ CLAIMS = {
         "over the real blocking TCP client and the real asynchronous service on scripted sockets with replies built by the independent reference aggregator; "
         "the request on the wire must carry hash, level, login id unchanged and a correct HMAC; success must coincide with the spec's result and the returned "
         "signature must be for the requested hash and level.",
-   note="quick: all single deviations + 400 sampled double deviations; thorough: all 1.6e3 behaviours. Also replayed over the blocking HTTP client on a scripted libcurl (HTTP status and transport errors included); the async curl_multi client and the block signer are not bound. The SDK adds the requested level to the reply's first level correction itself (so there is no 'lower level' reply).",
+   note="Status may also be absent (read as zero by the SDK; every other condition must hold). quick: all single deviations + 400 sampled double deviations; thorough: all 1.6e3 behaviours. Also replayed over the blocking HTTP client on a scripted libcurl (HTTP status and transport errors included); the async curl_multi client and the block signer are not bound. The SDK adds the requested level to the reply's first level correction itself (so there is no 'lower level' reply).",
    technique="TLC model checking of the protocol + replay of all TLC behaviours into the real signing calls on scripted sockets"),
  "C08": dict(level="model_checking", design_ref="DESIGN.md 4/C08",
    text="SignExtend.tla models extending (signatures with/without calendar chain, publication or authentication record x targets head / equal / later / earlier / "
@@ -133,7 +133,7 @@ CLAIMS = {
         "deviation as every single-bit flip in that region -- and fed to the real blocking client (sign, extend, aggregator and extender config), async service and HA "
         "service on scripted sockets. Requests written by every transport for six login/key pairs (keys below, at and above the HMAC block size) and several algorithms "
         "are parsed independently and their MAC recomputed; libksi's HMAC construction is compared with RFC 2104 (Python hmac) for every algorithm of the build.",
-   note="quick: every bit of every region of a signing reply on the blocking client, every 3rd payload bit for the other kinds, every 5th payload bit on async/HA; thorough: every bit everywhere. The blocking HTTP client is bound on a scripted libcurl (class Http); the async curl_multi client is not; v1 only as 'other version rejected'.",
+   note="A pushed configuration (kind aggrpush) is bound on the async and HA services. quick: every bit of every region of a signing reply on the blocking client, every 3rd payload bit for the other kinds, every 5th payload bit on async/HA; thorough: every bit everywhere. The blocking HTTP client is bound on a scripted libcurl (class Http); the async curl_multi client is not; v1 only as 'other version rejected'.",
    technique="TLC-checked PDU authentication model + exhaustive per-bit replay of its deviation cases into the real clients; independent recomputation of request MACs"),
  "C18": dict(level="model_checking", design_ref="DESIGN.md 4/C18",
    text="PubFile.tla defines declaratively which record sequences form a publications file (Accept), the signed range (SignedRecords), when a file is Trusted "
@@ -155,7 +155,7 @@ CLAIMS = {
         "bound uncontradicted signature is OK. The verdict of each pair is exported; cases of every class are realised with real bytes -- reference-built signature, really "
         "RSA-signed authentication record, publications file listing a certificate with the chosen validity window, a scripted extender on the real blocking TCP client "
         "serving an honest calendar database with the chosen deviation -- and KSI_SignatureVerifier_verify must return the spec's result and FAIL code.",
-   note="quick: one case per class (~6-9e3 verifications); thorough: six per class. Where the spec says a resource failure happened on the path, an error status instead of the verdict is accepted (the property allows 'NA, possibly with an error status').",
+   note="The environment includes the calendar hash-algorithm lifetime (signature's own chain / extender's chain with a SHA-1 left sibling after 2016-07-01). quick: one case per class (~6-9e3 verifications); thorough: six per class. Where the spec says a resource failure happened on the path, an error status instead of the verdict is accepted (the property allows 'NA, possibly with an error status').",
    technique="TLC model checking of the transcribed rule trees against the declarative anchor-binding property + replay of the exported verdicts into the real verifier with real PKI, publications files and a scripted extender"),
  "C11": dict(level="model_checking", design_ref="DESIGN.md 4/C11",
    text="Lifecycle.tla models signature objects in slots on one shared context: parse, clone, extend (to the calendar head, to a later time, with the publication "
@@ -165,7 +165,7 @@ CLAIMS = {
         "long-lived context (scripted extender on the real TCP client, real PKI and publications file). After every step every live object must serialize to exactly "
         "its creation bytes (the parsed bytes for parsed and cloned objects) and its verdict under a rotating policy / document / level must equal the verdict a fresh "
         "context gives for the same bytes.",
-   note="quick: 160 sequences of 14 operations (about 2e3 steps, 8e3 verifications); thorough: 1600 sequences. Prepending a local aggregation chain and RFC3161 forms are not exercised.",
+   note="After every step additionally a user-defined policy of one public rule (calendar input hash from the given input level) with levels none/0/1/3. quick: 160 sequences of 14 operations (about 2e3 steps, 8e3 verifications); thorough: 1600 sequences. Prepending a local aggregation chain and RFC3161 forms are not exercised.",
    technique="TLC simulation of an object-lifecycle model (behaviours with post-states) replayed step by step into the real library with abstract-state comparison after every action; fresh-context oracle"),
  "C19": dict(level="fault_enumeration", design_ref="DESIGN.md 4/C19",
    text="AllocFault.tla describes one fault experiment per operation -- Reference, Count, Fault(F), Cleanup, Retry -- and the guards of its actions say what may be observed: "
